@@ -380,7 +380,11 @@ def dict_set(I, ctx, ref, key, val, node):
             h.conc[ck] = val
             return
         dict_to_sym(I, ctx, ref)
-    kz = h.kt.to_z(key, ctx)
+    try:
+        kz = h.kt.to_z(key, ctx)
+    except TypeError:
+        raise Unsupported('key of another type (%s) stored into a dict keyed by %s'
+                          % (getattr(key, 'kind', type(key).__name__), h.kt), node)
     val = I.resolve(ctx, val)           # an optional value splits into its two cases here
     try:
         vz = h.vt.to_z(val, ctx)
